@@ -8,10 +8,15 @@ node-and-way streams of the model; the hypotheses are the property's domain:
 The FlexMem theorems hold for ANY `FlexParams` (bits, min_dense_entries, density_factor), so
 the quick tier's `-DOSMIUM_VERIF_FLEXMEM_MIN_DENSE_ENTRIES=200` build and the real threshold
 (`Generated.C12.flexMinDenseEntries`) are covered by one and the same statement.
+Histories with PHASES (any number of set / sort steps, index files closed and reopened in between, nodes that arrive
+after ways) have their own theorems: section "histories with PHASES", `nlfw_nodes_after_way`,
+`nlfw_must_sort_invariant` (lemmas: Osmium/Lemmas/IndexPhases.lean, Osmium/Lemmas/NodeLoc.lean).
 -/
 import Osmium.Lemmas.IndexMap
 import Osmium.Lemmas.NodeLoc
+import Osmium.Lemmas.IndexPhases
 import Osmium.Generated.C12Constants
+import Osmium.Generated.C12Shape
 import Osmium.Generated.Src
 import Osmium.Lemmas.CxxSem
 
@@ -122,6 +127,108 @@ theorem mmap_growth_keeps_empty_fill_partial (g : Grow V) (hg : GrowOk g) (inc :
     (mv : MmapVec V) (hi : MInv e mv) (id : Nat) (v : V) :
     MInv e (MDense.set g inc e mv id v) :=
   (MDense.set_spec g hg inc e mv hi id v).1
+
+/-! ### histories with PHASES: (set* sort lookups)*, reloads in between (seed C12-8)
+
+An insertion history is a list of `MOp`s — `set id v` and `sort` in ANY order and number — run by `Impl.runOps`
+from a fresh index or from an index reloaded from a file; `setsOf ops` are its insertions in order.  The
+theorems above are the one-phase instances (`Impl.runOps_sets`). -/
+
+/-- EVERY implementation that satisfies the laws, ANY number of set / sort phases: the final `sort()`
+    re-establishes the lookup law for everything inserted so far — also for ids inserted AFTER an earlier sort,
+    whether they lie below, between or above the earlier ones and in whatever order they came. -/
+theorem sort_phases {I : Impl V} {e : V} (L : Laws I e) (ops : List (MOp V)) (hd : DistinctIds (setsOf ops))
+    (hn : NonEmptyVals e (setsOf ops)) (id : Nat) :
+    I.get (I.sort (I.runOps I.init ops)) id = specOf (setsOf ops) id ∧
+    I.getNoexcept (I.sort (I.runOps I.init ops)) id = (specOf (setsOf ops) id).getD e :=
+  L.sort_phases ops hd hn id
+
+/-- sparse_mem_array (VectorBasedSparseMap over std::vector) on histories with any number of phases -/
+theorem sparse_sort_phases (bs : Nat) (e : V) (ops : List (MOp V)) (hd : DistinctIds (setsOf ops))
+    (hn : NonEmptyVals e (setsOf ops)) (id : Nat) :
+    (sparseImpl bs e).get ((sparseImpl bs e).sort ((sparseImpl bs e).runOps (sparseImpl bs e).init ops)) id =
+      specOf (setsOf ops) id ∧
+    (sparseImpl bs e).getNoexcept ((sparseImpl bs e).sort ((sparseImpl bs e).runOps (sparseImpl bs e).init ops)) id =
+      (specOf (setsOf ops) id).getD e :=
+  (sparseLaws bs e).sort_phases ops hd hn id
+
+/-- sparse_mmap_array / sparse_file_array on histories with any number of phases -/
+theorem mmap_sparse_sort_phases_partial (g : Grow (Nat × V)) (hg : GrowOk g) (inc bs : Nat) (e : V) (pe : Nat × V)
+    (ops : List (MOp V)) (hd : DistinctIds (setsOf ops)) (hn : NonEmptyVals e (setsOf ops)) (id : Nat) :
+    (msparseImpl g inc bs e pe).get
+      ((msparseImpl g inc bs e pe).sort ((msparseImpl g inc bs e pe).runOps (msparseImpl g inc bs e pe).init ops)) id =
+      specOf (setsOf ops) id :=
+  ((msparseLaws g hg inc bs e pe).sort_phases ops hd hn id).1
+
+/-- flex_mem (any parameters, whenever the switch happens) on histories with any number of phases -/
+theorem flexmem_sort_phases (P : FlexParams) (e : V) (ops : List (MOp V)) (hd : DistinctIds (setsOf ops))
+    (hn : NonEmptyVals e (setsOf ops)) (id : Nat) :
+    (flexImpl P e).get ((flexImpl P e).sort ((flexImpl P e).runOps (flexImpl P e).init ops)) id = specOf (setsOf ops) id :=
+  ((flexLaws P e).sort_phases ops hd hn id).1
+
+/-- lookups are valid after EVERY sort step of a longer history (they see exactly what was inserted before it) -/
+theorem lookups_valid_after_every_sort {I : Impl V} {e : V} (L : Laws I e) (ops1 ops2 : List (MOp V))
+    (hd : DistinctIds (setsOf (ops1 ++ ops2))) (hn : NonEmptyVals e (setsOf (ops1 ++ ops2))) (id : Nat) :
+    I.get (I.runOps I.init (ops1 ++ [.sort])) id = specOf (setsOf ops1) id :=
+  L.lookup_after_each_sort ops1 ops2 hd hn id
+
+/-- the two-phase history in plain words: insert `h1`, sort (and look up), insert `h2`, sort -/
+theorem sort_after_more_sets {I : Impl V} {e : V} (L : Laws I e) (h1 h2 : Hist V) (hd : DistinctIds (h1 ++ h2))
+    (hn : NonEmptyVals e (h1 ++ h2)) (id : Nat) :
+    I.get (I.sort (h2.foldl (fun m p => I.set m p.1 p.2) (I.sort (I.build h1)))) id = specOf (h1 ++ h2) id := by
+  have hs : ∀ h : Hist V, setsOf (h.map fun p => MOp.set p.1 p.2) = h := by
+    intro h; induction h with
+    | nil => rfl
+    | cons p t ih => simp only [List.map_cons, setsOf, ih]
+  have hso : setsOf ((h1.map fun p => MOp.set p.1 p.2) ++ [MOp.sort] ++ (h2.map fun p => MOp.set p.1 p.2)) = h1 ++ h2 := by
+    simp only [setsOf_append, hs, setsOf, List.append_nil]
+  have := (L.sort_phases ((h1.map fun p => MOp.set p.1 p.2) ++ [MOp.sort] ++ (h2.map fun p => MOp.set p.1 p.2))
+    (by rw [hso]; exact hd) (by rw [hso]; exact hn) id).1
+  rw [hso, Impl.runOps_append, Impl.runOps_sort_last, Impl.runOps_sets, Impl.runOps_sets_from] at this
+  exact this
+
+/-- Reopening the index's own file gives back exactly the vector that was there — sorted or not —, so nothing
+    the constructor `VectorBasedSparseMap(int fd)` leaves behind may assume more than "holds these entries". -/
+theorem reopen_keeps_vector_partial (g : Grow (Nat × V)) (hg : GrowOk g) (inc : Nat) (pe : Nat × V)
+    (mv : MmapVec (Nat × V)) (hi : MInv pe mv) (hne : ∀ p ∈ mv.view.toList, p ≠ pe) :
+    (MmapVec.load g inc pe mv.data).view = mv.view :=
+  MSparse.load_own_file g hg inc pe mv hi hne
+
+/-- Dump/reopen COMMUTES with later insertions: phases `ops0`, close, reopen (`mmap_vector_file(fd)`: size from the
+    file, content as it was), more phases `ops` with ids anywhere relative to the loaded ones, sort — every lookup
+    is what it would be without the reload, namely the map of everything ever inserted. -/
+theorem reload_then_set_then_sort_partial (g : Grow (Nat × V)) (hg : GrowOk g) (inc bs : Nat) (e : V) (k0 : Nat)
+    (ops0 ops : List (MOp V)) (hd : DistinctIds (setsOf ops0 ++ setsOf ops))
+    (hn : NonEmptyVals e (setsOf ops0 ++ setsOf ops)) (id : Nat) :
+    let I := msparseImpl g inc bs e (k0, e)
+    I.get (I.sort (I.runOps (MmapVec.load g inc (k0, e) (I.runOps I.init ops0).data) ops)) id =
+      I.get (I.sort (I.runOps I.init (ops0 ++ ops))) id ∧
+    I.get (I.sort (I.runOps I.init (ops0 ++ ops))) id = specOf (setsOf ops0 ++ setsOf ops) id := by
+  intro I
+  refine ⟨MSparse.reload_commutes g hg inc bs e k0 ops0 ops hd hn id, ?_⟩
+  have h2 := (msparseLaws g hg inc bs e (k0, e)).sort_phases (ops0 ++ ops)
+    (by rw [setsOf_append]; exact hd) (by rw [setsOf_append]; exact hn) id
+  rw [setsOf_append] at h2
+  exact h2.1
+
+/-- … for ANY number of reload generations (each life any phases, closed sorted or unsorted) -/
+theorem reload_generations_partial (g : Grow (Nat × V)) (hg : GrowOk g) (inc bs : Nat) (e : V) (k0 : Nat)
+    (gens : List (List (MOp V))) (ops : List (MOp V))
+    (hd : DistinctIds (livesSets gens ++ setsOf ops)) (hn : NonEmptyVals e (livesSets gens ++ setsOf ops)) (id : Nat) :
+    let I := msparseImpl g inc bs e (k0, e)
+    I.get (I.sort (I.runOps (MSparse.lives g inc bs e (k0, e) I.init gens) ops)) id =
+      specOf (livesSets gens ++ setsOf ops) id :=
+  (MSparse.reload_generations g hg inc bs e k0 gens ops hd hn id).1
+
+/-- … and through `dump_as_list` of another sparse index opened as `sparse_file_array` -/
+theorem dump_list_reload_then_phases_partial (g : Grow (Nat × V)) (hg : GrowOk g) (inc bs : Nat) (e : V) (k0 : Nat)
+    (ops0 ops : List (MOp V)) (hd : DistinctIds (setsOf ops0 ++ setsOf ops))
+    (hn : NonEmptyVals e (setsOf ops0 ++ setsOf ops)) (id : Nat) :
+    let J := sparseImpl bs e
+    let I := msparseImpl g inc bs e (k0, e)
+    I.get (I.sort (I.runOps (MmapVec.load g inc (k0, e) (J.runOps J.init ops0)) ops)) id =
+      specOf (setsOf ops0 ++ setsOf ops) id :=
+  Sparse.dump_list_reload_phases g hg inc bs e k0 ops0 ops hd hn id
 
 /-! ### dump / load -/
 
@@ -244,6 +351,45 @@ theorem nlfw_ways_get_locations {Ip In : Impl V} {e : V} (Lp : Laws Ip e) (Ln : 
     (NLFW.run ok (NLFW.init Ip In ign) { h := NLFW.init Ip In ign } evs).2 = specRun ok e ign [] [] evs :=
   NInv.run ok ign evs { h := NLFW.init Ip In ign } ign [] (NInv.init Lp Ln ign) hok
 
+/-- Nodes that arrive AFTER a way: nodes `b1` (any order), a way, nodes `b2` (any order, ids anywhere relative to
+    those of `b1` — in particular above the LAST id of `b1` and below its LARGEST), a second way.  The second way
+    gets the locations of the nodes of both batches. -/
+theorem nlfw_nodes_after_way {Ip In : Impl V} {e : V} (Lp : Laws Ip e) (Ln : Laws In e) (ok : V → Bool) (ign : Bool)
+    (b1 b2 : List (Int × V)) (refs1 refs2 : List (NRef V)) (hok : NodesOk e (b2.reverse ++ b1.reverse)) :
+    (NLFW.run ok (NLFW.init Ip In ign) { h := NLFW.init Ip In ign }
+      (nodeEvs b1 ++ Ev.way refs1 :: (nodeEvs b2 ++ [Ev.way refs2]))).2 =
+      [specWay ok e ign b1.reverse (refIds refs1), specWay ok e ign (b2.reverse ++ b1.reverse) (refIds refs2)] := by
+  have hev : EvsOk e [] (nodeEvs b1 ++ Ev.way refs1 :: (nodeEvs b2 ++ [Ev.way refs2])) := by
+    rw [evsOk_nodeEvs]
+    show EvsOk e (b1.reverse ++ []) (nodeEvs b2 ++ [Ev.way refs2])
+    rw [evsOk_nodeEvs]
+    simpa [EvsOk] using hok
+  rw [nlfw_ways_get_locations Lp Ln ok ign _ hev, specRun_nodeEvs]
+  simp only [specRun, List.append_nil]
+  rw [specRun_nodeEvs]
+  simp only [specRun]
+
+/-- The `m_must_sort` / `m_last_id` state machine along WHOLE streams (nodes, ways, more nodes, more ways …): after every
+    prefix, whenever `m_must_sort` is false both indexes are ready for lookups and no node of this handler life has
+    |id| above `m_last_id`. -/
+theorem nlfw_must_sort_invariant {Ip In : Impl V} {e : V} (Lp : Laws Ip e) (Ln : Laws In e) (ok : V → Bool) (ign : Bool)
+    (evs : List (Ev V)) (hok : EvsOk e [] evs) :
+    let s := (NLFW.run ok (NLFW.init Ip In ign) { h := NLFW.init Ip In ign } evs).1.h
+    s.mustSort = false → Lp.Ready s.pos ∧ Ln.Ready s.neg ∧ ∀ p ∈ lifeNodes [] evs, p.1.natAbs ≤ s.lastId :=
+  (NInv.run_state ok ign evs { h := NLFW.init Ip In ign } ign [] (NInv.init Lp Ln ign) hok).ready
+
+/-- The reset `m_last_id = max()` after the sort in `way()` is NEEDED.  `st` = a handler over sparse indexes after the nodes
+    50, 30 and a way: sorted index, `m_must_sort = false`.  If `m_last_id` still is 30 (the id of the LAST node, not of the
+    largest), the node 40 arriving now leaves `m_must_sort` false although the index is no longer sorted, and the next
+    way gets no location for it (not_found thrown); with `m_last_id = max()` the same node sets `m_must_sort`. -/
+theorem nlfw_last_id_reset_is_needed :
+    let st (last : Nat) : NLFW (sparseImpl 4 (0 : Int)) (sparseImpl 4 0) :=
+      { pos := #[(30, 3), (50, 5)], neg := #[], lastId := last }
+    ((st 30).node 40 4).mustSort = false ∧
+    (((st 30).node 40 4).way (fun l => l != 0) [(30, 0), (40, 0), (50, 0)]).2 = ([(30, 3), (40, 0), (50, 5)], true) ∧
+    ((st idMax).node 40 4).mustSort = true := by
+  decide +kernel
+
 /-- regardless of the order in which the nodes arrived: two handlers fed the same nodes in different
     orders (any permutation) answer every way identically -/
 theorem nlfw_arrival_order_irrelevant {Ip In : Impl V} {e : V} (Lp : Laws Ip e) (Ln : Laws In e)
@@ -332,6 +478,23 @@ example : GrowOk (fun (a : Array Int) n => a ++ Array.replicate (n - a.size) 7) 
 example : (sparseImpl 2 (0 : Int)).dumpAsArray #[(1, 11), (4, 44)] = some #[0, 11, 0, 0, 44] := by decide
 
 example : NodesOk (0 : Int) [(5, 50), (-3, 30), (2, 20)] := by
+  refine ⟨by decide, by decide, ?_⟩
+  intro p hp; simp at hp; rcases hp with rfl | rfl | rfl <;> simp [idMax]
+
+-- a history with three set phases (ids of the later phases below / between the earlier ones, two sort steps in
+-- between) meets the hypotheses of the phase theorems …
+example : DistinctIds (setsOf [MOp.set 50 (5 : Int), .set 30 3, .sort, .set 40 4, .sort, .set 10 1, .set 20 2]) ∧
+    NonEmptyVals (0 : Int) (setsOf [MOp.set 50 5, .set 30 3, .sort, .set 40 4, .sort, .set 10 1, .set 20 2]) := by
+  simp [DistinctIds, NonEmptyVals, setsOf]
+-- … and WITHOUT the final sort the id inserted after the earlier sort is not found (the sort step matters)
+example : (sparseImpl 4 (0 : Int)).get ((sparseImpl 4 0).runOps #[(30, 3), (50, 5)] [MOp.set 40 4]) 40 = none := by
+  decide +kernel
+-- two reload generations + later phases: the hypotheses of `reload_generations_partial` are satisfiable
+example : DistinctIds (livesSets [[MOp.set 50 (5 : Int), .set 30 3], [.set 40 4, .sort]] ++ setsOf [MOp.set 10 1, .sort, .set 45 9]) ∧
+    NonEmptyVals (0 : Int) (livesSets [[MOp.set 50 5, .set 30 3], [.set 40 4, .sort]] ++ setsOf [MOp.set 10 1, .sort, .set 45 9]) := by
+  simp [DistinctIds, NonEmptyVals, setsOf, livesSets]
+-- nodes after a way: the seed's stream (50, 30, way, 40, way) is in the domain of `nlfw_nodes_after_way`
+example : NodesOk (0 : Int) ([(40, 4)].reverse ++ [(50, 5), (30, 3)].reverse) := by
   refine ⟨by decide, by decide, ?_⟩
   intro p hp; simp at hp; rcases hp with rfl | rfl | rfl <;> simp [idMax]
 
@@ -458,6 +621,113 @@ theorem src_tie_nlfw_ignore_errors {Ip In : Impl Loc}
       (absNLFW self' p n : NLFW Ip In) = (absNLFW self p n).setIgnoreErrors :=
   ⟨{ self with m_ignore_errors := true }, by simp [Src.NodeLocationsForWays.NodeLocationsForWays_Location_Location.ignore_errors],
    by simp [absNLFW, NLFW.setIgnoreErrors]⟩
+
+/-- `way()`, the assignment after the sort: the right-hand side of `m_last_id = …` in the source (translated:
+    `std::numeric_limits<unsigned_object_id_type>::max()`) IS the model's `idMax`, and the model's sort step stores
+    exactly that value; `node()`'s `m_last_id = node.positive_id()` is the model's `|id|`. -/
+theorem src_tie_nlfw_last_id {Ip In : Impl Loc} (self : Src.NodeLocationsForWays.NodeLocationsForWays_Location_Location)
+    (p : Ip.M) (n : In.M) (node : Src.Node.Node) (loc : Loc)
+    (hd : Src.NodeLocationsForWays.nlfw_node_last_id_defined node = true) :
+    Src.NodeLocationsForWays.nlfw_way_last_id_after_sort = (idMax : Int) ∧
+    Src.NodeLocationsForWays.nlfw_way_last_id_after_sort_defined = true ∧
+    (self.m_must_sort = true →
+      (absNLFW self p n : NLFW Ip In).prepare.lastId = Src.NodeLocationsForWays.nlfw_way_last_id_after_sort.toNat) ∧
+    ((absNLFW self p n : NLFW Ip In).node (Src.NodeLocationsForWays.nlfw_node_id node) loc).lastId =
+      (Src.NodeLocationsForWays.nlfw_node_last_id node).toNat := by
+  have e1 : Src.NodeLocationsForWays.nlfw_way_last_id_after_sort = (idMax : Int) := by decide
+  refine ⟨e1, by decide, ?_, ?_⟩
+  · intro hms
+    simp only [NLFW.prepare, absNLFW, hms, if_true, e1, Int.toNat_natCast]
+  · simp only [Src.NodeLocationsForWays.nlfw_node_last_id_defined, Src.Object.OSMObject.positive_id_defined,
+      inS64_iff] at hd
+    have hw : wrapU 64 ((Int.natAbs node.toBase_OSMObject.m_id : Nat) : Int) = ((Int.natAbs node.toBase_OSMObject.m_id : Nat) : Int) := by
+      apply wrapU_eq <;> omega
+    by_cases hge : node.toBase_OSMObject.m_id ≥ 0 <;>
+      simp [NLFW.node, absNLFW, Src.NodeLocationsForWays.nlfw_node_id, Src.Object.OSMObject.id,
+        Src.NodeLocationsForWays.nlfw_node_last_id, Src.Object.OSMObject.positive_id, hw, hge]
+
+/-! Statement-shape ties (tools/props/c12_shape.py → Generated/C12Shape.lean, regenerated from the clang AST of the source
+    on every run): the statement sequences Model/IndexMap.lean transcribes, pinned.  `sparseImpl` / `msparseImpl`:
+    `set` = ONE unconditional `push_back`, `sort` = ONE unconditional `std::sort` over the whole vector, the only data
+    member is the vector, the constructor taking an fd initialises only the vector; `MmapVec.load/resize/reserve/
+    pushBack/shrink`: the statements of `mmap_vector_base`; `NLFW.node/way/…`: the statements of the handler. -/
+
+open Osmium.Generated.C12Shape in
+/-- VectorBasedSparseMap (over std::vector and over mmap_vector_file): no state besides the vector — so nothing can
+    remember "already sorted" or "largest id" across `set` / `sort` / a reopen —, `set` and `sort` unconditional. -/
+theorem src_shape_sparse_map_set_sort :
+    sparse_vec_fields = ["m_vector"] ∧ sparse_file_fields = ["m_vector"] ∧
+    sparse_vec_set = ["m_vector.push_back(element_type{id, value})"] ∧ sparse_file_set = sparse_vec_set ∧
+    sparse_vec_sort = ["sort(m_vector.begin(), m_vector.end())"] ∧ sparse_file_sort = sparse_vec_sort ∧
+    sparse_vec_clear = ["m_vector.clear()", "m_vector.shrink_to_fit()"] ∧ sparse_file_clear = sparse_vec_clear := by
+  refine ⟨rfl, rfl, rfl, rfl, rfl, rfl, rfl, rfl⟩
+
+open Osmium.Generated.C12Shape in
+/-- … its constructors: default, and `(int fd)` = hand the fd to the vector, nothing else -/
+theorem src_shape_sparse_map_ctors :
+    sparse_vec_ctors = [["params ", "init base Map = Map{}", "init m_vector = vector_type{}"],
+                        ["params fd", "init base Map = Map{}", "init m_vector = vector_type{fd, <default>}"]] ∧
+    sparse_file_ctors = [["params ", "init base Map = Map{}", "init m_vector = vector_type{}"],
+                         ["params fd", "init base Map = Map{}", "init m_vector = fd"]] := by
+  refine ⟨rfl, rfl⟩
+
+open Osmium.Generated.C12Shape in
+/-- … its lookups: `lower_bound` on the ids over the WHOLE vector, then the `end() / first != id` test (`Sparse.getN`) -/
+theorem src_shape_sparse_map_lookup :
+    sparse_file_find_id = ["let element = element_type{id, empty_value()}",
+      "return lower_bound(m_vector.begin(), m_vector.end(), element, lambda{return (a.first < b.first)})"] ∧
+    sparse_vec_find_id = sparse_file_find_id ∧
+    sparse_file_get_noexcept = ["let result = find_id(id)", "if ((result == m_vector.end()) || (result.first != id))",
+      "return empty_value()", "endif", "return result.second"] ∧
+    sparse_file_get = ["let result = find_id(id)", "if ((result == m_vector.end()) || (result.first != id))",
+      "<CXXThrowExpr>", "endif", "return result.second"] ∧
+    sparse_file_dump_as_list = ["reliable_write(fd, <CXXReinterpretCastExpr>, byte_size())"] ∧
+    sparse_vec_dump_as_list = sparse_file_dump_as_list := by
+  refine ⟨rfl, rfl, rfl, rfl, rfl, rfl⟩
+
+open Osmium.Generated.C12Shape in
+/-- mmap_vector_base / mmap_vector_file: members `m_size`, `m_mapping`; opening a file = capacity
+    `max(increment, filesize)`, size `filesize`, fill `[size, capacity)` with the empty value, `shrink_to_fit`
+    (`MmapVec.load`); `push_back` / `resize` / `reserve` / `shrink_to_fit` / `clear` as modelled -/
+theorem src_shape_mmap_vector :
+    mmap_base_fields = ["m_size", "m_mapping"] ∧ mmap_file_fields = [] ∧
+    mmap_file_ctors = [["params ", "init base mmap_vector_base = mmap_vector_base{create_tmp_file(), mmap_vector_size_increment, <default>}"],
+      ["params fd", "init base mmap_vector_base = mmap_vector_base{fd, max(size_t{mmap_vector_size_increment}, filesize(fd)), filesize(fd)}"]] ∧
+    mmap_base_ctors = [["params capacity", "init m_size = <CXXDefaultInitExpr>", "init m_mapping = capacity",
+        "fill_n(data(), capacity, empty_value())"],
+      ["params fd, capacity, size", "init m_size = size", "init m_mapping = TypedMemoryMapping{capacity, write_shared, fd, <default>}",
+        "fill((data() + size), (data() + capacity), empty_value())", "shrink_to_fit()"]] ∧
+    mmap_base_push_back = ["resize((m_size + 1))", "operator=(data()[(m_size - 1)], value)"] ∧
+    mmap_base_resize = ["if (new_size > capacity())", "reserve((new_size + mmap_vector_size_increment))", "endif",
+      "(m_size = new_size)"] ∧
+    mmap_base_reserve = ["if (new_capacity > capacity())", "let old_capacity = capacity()", "m_mapping.resize(new_capacity)",
+      "fill((data() + old_capacity), (data() + new_capacity), empty_value())", "endif"] ∧
+    mmap_base_shrink_to_fit = ["WhileStmt", "((m_size > 0) && operator==(data()[(m_size - 1)], empty_value()))", "(--m_size)",
+      "endWhileStmt"] ∧
+    mmap_base_clear = ["(m_size = 0)"] := by
+  refine ⟨rfl, rfl, rfl, rfl, rfl, rfl, rfl, rfl, rfl⟩
+
+open Osmium.Generated.C12Shape in
+/-- NodeLocationsForWays: the five members with their initial values, and `node()` / `way()` / `get_node_location()` /
+    `clear()` / `ignore_errors()` statement by statement — in `way()`: the sort step (`sort` both, `m_must_sort = false`,
+    `m_last_id = max()`) under `if (m_must_sort)`, the loop that overwrites every ref's location unconditionally, the throw. -/
+theorem src_shape_nlfw :
+    nlfw_fields = ["m_storage_pos", "m_storage_neg", "m_last_id = 0", "m_ignore_errors = false", "m_must_sort = false"] ∧
+    nlfw_ctors = [["params storage_pos, storage_neg", "init base Handler = Handler{}", "init m_storage_pos = storage_pos",
+      "init m_storage_neg = storage_neg", "init m_last_id = <CXXDefaultInitExpr>", "init m_ignore_errors = <CXXDefaultInitExpr>",
+      "init m_must_sort = <CXXDefaultInitExpr>"]] ∧
+    nlfw_node = ["if (node.positive_id() < m_last_id)", "(m_must_sort = true)", "endif", "(m_last_id = node.positive_id())",
+      "let id = node.id()", "if (id >= 0)", "m_storage_pos.set(unsigned_object_id_type{id}, node.location())", "else",
+      "m_storage_neg.set(unsigned_object_id_type{(-id)}, node.location())", "endif"] ∧
+    nlfw_way = ["if m_must_sort", "m_storage_pos.sort()", "m_storage_neg.sort()", "(m_must_sort = false)", "(m_last_id = max())",
+      "endif", "let error = false", "for node_ref in way.nodes()", "node_ref.set_location(get_node_location(node_ref.ref()))",
+      "if (!node_ref.location().operator bool())", "(error = true)", "endif", "endfor", "if ((!m_ignore_errors) && error)",
+      "<CXXThrowExpr>", "endif"] ∧
+    nlfw_get_node_location = ["if (id >= 0)", "return m_storage_pos.get_noexcept(unsigned_object_id_type{id})", "endif",
+      "return m_storage_neg.get_noexcept(unsigned_object_id_type{(-id)})"] ∧
+    nlfw_clear = ["m_storage_pos.clear()", "m_storage_neg.clear()"] ∧
+    nlfw_ignore_errors = ["(m_ignore_errors = true)"] := by
+  refine ⟨rfl, rfl, rfl, rfl, rfl, rfl, rfl⟩
 
 example : Src.NodeLocationsForWays.nlfw_node_cond_out_of_order_typed ⟨⟨⟩, ⟨⟩, ⟨⟩, 7, false, false⟩
       ⟨⟨⟨⟨⟨⟩, 0, 0, 0, 0, 0⟩⟩, -5, false, 1, ⟨0⟩, 0, 0⟩, ⟨1, 2⟩⟩ = true ∧
